@@ -118,38 +118,57 @@ func (c *Conn) Ops() (reads, writes int) {
 	return c.nRead, c.nWrit
 }
 
-// WaitOutput blocks until pred(output) holds or the timeout passes.
-func (c *Conn) WaitOutput(pred func([]byte) bool, timeout time.Duration) bool {
+// waitFor blocks until pred (evaluated with the lock held) is true, the
+// timeout passes or stop is closed.
+func (c *Conn) waitFor(pred func() bool, timeout time.Duration, stop <-chan struct{}) bool {
 	deadline := time.Now().Add(timeout)
-	t := time.AfterFunc(timeout, func() { c.cond.Broadcast() })
-	defer t.Stop()
+	quit := make(chan struct{})
+	defer close(quit)
+	go func() {
+		t := time.NewTicker(2 * time.Millisecond)
+		defer t.Stop()
+		for {
+			select {
+			case <-t.C:
+				c.cond.Broadcast()
+			case <-quit:
+				return
+			}
+		}
+	}()
 	c.mu.Lock()
 	defer c.mu.Unlock()
 	for {
-		if pred(c.out) {
+		if pred() {
 			return true
 		}
 		if !time.Now().Before(deadline) {
 			return false
 		}
+		if stop != nil {
+			select {
+			case <-stop:
+				return pred()
+			default:
+			}
+		}
 		c.cond.Wait()
 	}
 }
 
+// WaitOutput blocks until pred(output) holds or the timeout passes.
+func (c *Conn) WaitOutput(pred func([]byte) bool, timeout time.Duration) bool {
+	return c.waitFor(func() bool { return pred(c.out) }, timeout, nil)
+}
+
 // WaitDrained blocks until all fed input has been read (or timeout).
 func (c *Conn) WaitDrained(timeout time.Duration) bool {
-	deadline := time.Now().Add(timeout)
-	t := time.AfterFunc(timeout, func() { c.cond.Broadcast() })
-	defer t.Stop()
-	c.mu.Lock()
-	defer c.mu.Unlock()
-	for len(c.in) > 0 {
-		if !time.Now().Before(deadline) {
-			return false
-		}
-		c.cond.Wait()
-	}
-	return true
+	return c.waitFor(func() bool { return len(c.in) == 0 }, timeout, nil)
+}
+
+// WaitDrainedOr is WaitDrained that also gives up when stop is closed.
+func (c *Conn) WaitDrainedOr(stop <-chan struct{}, timeout time.Duration) bool {
+	return c.waitFor(func() bool { return len(c.in) == 0 }, timeout, stop)
 }
 
 func (c *Conn) Read(p []byte) (int, error) {
